@@ -788,7 +788,11 @@ func (tdsChan *Channel) tryParsePackage() bool {
 	if !tdsChan.deliver(pkg) {
 		return false
 	}
-	tdsChan.lastPkgRx = pkg
+	// Messages of the server may arrive in the middle of a result set,
+	// they must not hide the format from the data packages that follow.
+	if !IsError(pkg) {
+		tdsChan.lastPkgRx = pkg
+	}
 	tdsChan.rxDoneFinal, _ = isDoneFinal(pkg)
 	return true
 }
